@@ -172,7 +172,8 @@ func C11(p *load.Prog, r *oblig.Run) {
 	r.Rule("R11.b", "a field written under a mutex by the concurrent workers is only read under a mutex there", 3)
 	lockConsistency(p, r, "R11.b", a, g, root)
 	r.Rule("R11.d", "each already-sent map is keyed only by individuals of the side it stands for", 6)
-	sentSides(p, r, "R11.d", concurrentRegion(g, root))
+	r.Rule("R11.e", "a job producer that tests one already-sent map before sending tests every map it marks", 1)
+	sentSides(p, r, "R11.d", "R11.e", concurrentRegion(g, root))
 	channelsClosed(p, r, "R11.c", []*ssa.Function{p.Func(load.PkgRoot, "createJobs"), p.Method(load.PkgRoot, "IndividualNodesCompareOptions", "processJobs"),
 		p.Method(load.PkgRoot, "IndividualNodesCompareOptions", "collectResults"), p.Method(load.PkgRoot, "IndividualNodesCompareOptions", "calculateWinners"), root})
 }
